@@ -123,6 +123,26 @@ def run():
         if bad_tr:
             results.append(check('treasury execute_update_config: the saved trader is the supplied one when supplied, else the loaded one (all shapes, all values)', dom + [z3.Or(*bad_tr)], 'C13'))
             results.append(check('treasury execute_update_config: the saved allow-list is the supplied one when supplied, else the loaded one (all shapes, all values)', dom + [z3.Or(*bad_rt)], 'C13'))
+    # ---- the allow-list test itself: shape of its body (its meaning on concrete routes is engine S's matrix) ----
+    text = tre.text
+
+    def body(header_re):
+        m = re.search(header_re, text, re.M)
+        if not m:
+            return None
+        return text[m.start(): text.find('\n}\n', m.start())]
+
+    fn_b = body(r'^fn [^\n]*::assert_allowed_swap_route\(_1: &state::Config, _2: &\[SwapRoute\]\)')
+    cl_b = body(r'^fn [^\n]*::assert_allowed_swap_route::\{closure#0\}\(')
+    eq_b = body(r'^fn [^\n]*::eq\(_1: &SwapRoute, _2: &SwapRoute\)')
+
+    def calls(b):
+        return re.findall(r'= ([^\n;]*?)\((?:[^\n]*)\) -> \[return', b or '')
+    ok_fn = fn_b is not None and any('is_empty' in c for c in calls(fn_b)) and any('Iterator>::any' in c for c in calls(fn_b)) and not any(re.search(r'format|join|to_string|concat', c) for c in calls(fn_b))
+    ok_cl = cl_b is not None and [c for c in calls(cl_b)] == ['<std::vec::Vec<SwapRoute> as PartialEq<[SwapRoute]>>::eq'] and 'switchInt' not in cl_b
+    ok_eq = eq_b is not None and re.search(r'Eq\(', eq_b) is not None and len(re.findall(r'<std::string::String as PartialEq>::eq', eq_b)) == 2 and '(*_1).0' in eq_b and '(*_1).1' in eq_b and '(*_1).2' in eq_b
+    results.append(dict(name='treasury assert_allowed_swap_route: emptiness test, then any(|allowed| allowed == route) with the slice equality of Vec<SwapRoute> (structural)', result='structural', ok=bool(ok_fn and ok_cl), prop='C13'))
+    results.append(dict(name='treasury SwapRoute equality compares pool id, input denom and output denom (derived PartialEq, structural)', result='structural', ok=bool(ok_eq), prop='C13'))
     return dict(crate='treasury', functions=info, results=results)
 
 
